@@ -2,6 +2,7 @@ package main
 
 import (
 	"fmt"
+	"os"
 	"go/token"
 	"go/types"
 	"sort"
@@ -279,6 +280,12 @@ func (fr *frame) applyContract(ct *FuncContract, f *ssa.Function, sig *types.Sig
 	oldSt := st.clone()
 	env.old = oldSt
 	// modifies
+	if po := ct.Opts["modifies-outside"]; po != "" {
+		if fc.c != nil && !fc.modEvery && fc.c.Opts["modifies-outside"] != po {
+			fc.oblig("frame", "frame.call."+cname, "false", reach, pos, nil).Src = "callee modifies everything outside package " + po
+		}
+		fr.havocOutside(st, po)
+	}
 	if ct.Opts["modifies-everything"] != "" {
 		if fc.c != nil && !fc.modEvery {
 			fc.oblig("frame", "frame.call."+cname, "false", reach, pos, nil).Src = "callee modifies everything"
@@ -557,6 +564,76 @@ func (fr *frame) dynCall(fv Term, c *ssa.CallCommon, args []Val, st *State, reac
 	fc := fr.fc
 	cands := fc.e.dynCandidates(c.Value.Type())
 	if len(cands) == 0 {
+		// a contract attached to the function type?
+		for _, ft := range fc.e.specs.FuncTypes {
+			t, _, err := fc.e.resolveType(ft.Type, ft.Pkg)
+			if err != nil || t == nil || !types.Identical(t, c.Value.Type()) {
+				continue
+			}
+			fr.safety("nilfunc", not(eq(fv.S, "0")), reach, pos, "call of nil function value")
+			keep := map[string]Term{}
+			hookPkg := ""
+			for k := 0; k+1 < len(ft.Preserves); k++ {
+				if ft.Preserves[k] != "package" {
+					continue
+				}
+				hookPkg = ft.Preserves[k+1]
+				for n, v := range st.heap {
+					if fc.ownedBy(n, hookPkg) {
+						keep[n] = v
+					}
+				}
+			}
+			for _, pn := range ft.Preserves {
+				if pn == "package" || strings.Contains(pn, "/") {
+					continue
+				}
+				pt, _, err := fc.e.resolveType(pn, ft.Pkg)
+				if err != nil || pt == nil {
+					fc.unsupported("functype %s: %v", ft.Type, err)
+					continue
+				}
+				if stt, ok := pt.Underlying().(*types.Struct); ok {
+					for k := 0; k < stt.NumFields(); k++ {
+						n := fieldArrName(pt, stt.Field(k).Name())
+						keep[n] = fc.heapGet(st, n, arr(SInt, fc.e.sortOf(stt.Field(k).Type())))
+					}
+				}
+			}
+			if fc.c != nil && !fc.modEvery && !(hookPkg != "" && fc.c.Opts["modifies-outside"] == hookPkg) {
+				fc.oblig("frame", "frame.call.functype."+sanitize(ft.Type), "false", reach, pos, nil).Src = "values of type " + ft.Type + " may modify anything but " + strings.Join(ft.Preserves, ", ")
+			}
+			if os.Getenv("GOWP_DEBUG_FRAME") != "" {
+				var ks, hs []string
+				for n := range keep {
+					ks = append(ks, n)
+				}
+				for n := range st.heap {
+					if _, ok := keep[n]; !ok {
+						hs = append(hs, n)
+					}
+				}
+				sort.Strings(ks)
+				sort.Strings(hs)
+				fmt.Fprintf(os.Stderr, "functype call in %s: keep %v\n   havoc %v\n", fc.short, ks, hs)
+				for _, h := range hs {
+					if i := strings.LastIndex(h, "$R"); i >= 0 {
+						var id int
+						fmt.Sscanf(h[i+1:], "R%d", &id)
+						if n := fc.e.reg.byID[id]; n != nil {
+							rep := fc.e.reg.find(n)
+							fmt.Fprintf(os.Stderr, "   region %s: desc=%s rep=%s pkgs=%v declPkg=%s\n", h[i+1:], n.desc, rep.desc, rep.pkgs, n.declPkg)
+						}
+					}
+				}
+			}
+			fr.havocAll(st)
+			for n, v := range keep {
+				st.heap[n] = v
+			}
+			fc.trusted["function type "+ft.Type+": calls leave "+strings.Join(ft.Preserves, ", ")+" untouched (the hook implementations live in a package that cannot name that type)"] = true
+			return fr.freshResults(c.Signature(), st, "r_hook")
+		}
 		return fr.unknownCall("function value of type "+shortType(c.Value.Type()), c.Signature(), st, reach, pos)
 	}
 	fr.safety("nilfunc", not(eq(fv.S, "0")), reach, pos, "call of nil function value")
@@ -781,4 +858,37 @@ func (fr *frame) frameCheckOrNil(st *State, arrName string, ref Term, reach stri
 	}
 	o := fc.oblig("frame", "frame."+arrName, or(eq(ref.S, "0"), fc.allowed(fr.old, arrName, ref.S)), reach, pos, nil)
 	o.Src = "write to " + arrName + " must be covered by the modifies clause"
+}
+
+// ownedBy: the heap array belongs to package pkg (fields of its struct types, cells of its named
+// types, its lock/ghost state, and map regions whose values occur only in its code).
+func (fc *FnCtx) ownedBy(name, pkg string) bool {
+	pkgName := pkg
+	if i := strings.LastIndex(pkg, "/"); i >= 0 {
+		pkgName = pkg[i+1:]
+	}
+	switch {
+	case strings.HasPrefix(name, "F$"+pkgName+"_"), strings.HasPrefix(name, "D$"+pkgName+"_"), strings.HasPrefix(name, "D$p"+pkgName+"_"), strings.HasPrefix(name, "LK$"+pkgName+"_"), strings.HasPrefix(name, "G$"+pkgName+"_"):
+		return true
+	case strings.HasPrefix(name, "MD$"), strings.HasPrefix(name, "MV$"):
+		if i := strings.LastIndex(name, "$R"); i >= 0 {
+			return fc.e.regionOnlyIn(name[i+1:], pkg)
+		}
+	}
+	return false
+}
+
+// havocOutside: every heap array not owned by pkg gets an unconstrained new version.
+func (fr *frame) havocOutside(st *State, pkg string) {
+	fc := fr.fc
+	keep := map[string]Term{}
+	for n, v := range st.heap {
+		if fc.ownedBy(n, pkg) {
+			keep[n] = v
+		}
+	}
+	fr.havocAll(st)
+	for n, v := range keep {
+		st.heap[n] = v
+	}
 }
